@@ -365,6 +365,20 @@ func (c *Ctx) panicTable() []panicDischarge {
 	}
 }
 
+// isIsaPath: the access path reads the inverse suffix array of the greedy parser (found by role).
+func (c *Ctx) isIsaPath(p string) bool {
+	g := c.gsap()
+	if g.err != "" || g.isaF == nil {
+		return strings.Contains(p, "isa")
+	}
+	for _, part := range strings.Split(p, ".") {
+		if part == g.isaF.Name() {
+			return true
+		}
+	}
+	return false
+}
+
 // bitsetArgsNonNeg: every call of insert passes int(x) with x loaded from an []int32 whose stores are range indexes.
 func (c *Ctx) bitsetArgsNonNeg(insert *ssa.Function) (bool, string) {
 	n := 0
@@ -378,6 +392,18 @@ func (c *Ctx) bitsetArgsNonNeg(insert *ssa.Function) (bool, string) {
 				n++
 				// variadic: args[1] is a slice of a fresh array whose single element is the value
 				arg := call.Common().Args[1]
+				if isIntType(arg.Type()) {
+					// insert(i int): the value itself
+					v := stripConv(arg)
+					ld, ok := v.(*ssa.UnOp)
+					if !ok {
+						return false, "argument is not a suffix-array rank at " + c.pos(in.Pos())
+					}
+					if _, p, ok := pathStr(ld.X); !ok || !c.isIsaPath(p) {
+						return false, "argument is not loaded from the inverse suffix array at " + c.pos(in.Pos())
+					}
+					continue
+				}
 				sl, ok := arg.(*ssa.Slice)
 				if !ok {
 					return false, "non-literal variadic argument at " + c.pos(in.Pos())
@@ -402,7 +428,7 @@ func (c *Ctx) bitsetArgsNonNeg(insert *ssa.Function) (bool, string) {
 						if !ok {
 							return false, "argument is not a suffix-array rank at " + c.pos(in.Pos())
 						}
-						if _, p, ok := pathStr(ld.X); !ok || !strings.Contains(p, "isa") {
+						if _, p, ok := pathStr(ld.X); !ok || !c.isIsaPath(p) {
 							return false, "argument is not loaded from the inverse suffix array at " + c.pos(in.Pos())
 						}
 					}
@@ -425,7 +451,7 @@ func (c *Ctx) bitsetArgsNonNeg(insert *ssa.Function) (bool, string) {
 				if !ok {
 					continue
 				}
-				if _, p, ok := pathStr(ia.X); !ok || lastField(p) != "isa" {
+				if _, p, ok := pathStr(ia.X); !ok || !c.isIsaPath(p) {
 					continue
 				}
 				if !c.nonneg(st.Val) {
@@ -926,12 +952,44 @@ func (c *Ctx) loopInvariant(fi *FuncInfo, l *Loop, v ssa.Value) bool {
 		if bi, ok := x.Call.Value.(*ssa.Builtin); ok && bi.Name() == "len" {
 			return c.loopInvariant(fi, l, x.Call.Args[0])
 		}
+		// pure observers of the standard library on an invariant value (v.NumField() as a loop bound)
+		if cl := x.Call.StaticCallee(); cl != nil && cl.Pkg != nil && cl.Pkg.Pkg.Path() == "reflect" {
+			switch cl.Name() {
+			case "NumField", "Len", "NumMethod":
+				all := true
+				for _, a := range x.Call.Args {
+					if !c.loopInvariant(fi, l, a) {
+						all = false
+					}
+				}
+				return all
+			}
+		}
 	case *ssa.Convert:
 		return c.loopInvariant(fi, l, x.X)
 	case *ssa.BinOp:
 		return c.loopInvariant(fi, l, x.X) && c.loopInvariant(fi, l, x.Y)
 	case *ssa.UnOp:
 		if x.Op == token.MUL {
+			// a local that the loop neither stores to nor hands out by address
+			if al, isAl := x.X.(*ssa.Alloc); isAl {
+				for _, ref := range *al.Referrers() {
+					in, _ := ref.(ssa.Instruction)
+					if in == nil || !l.Blocks[in.Block()] {
+						continue
+					}
+					switch r := ref.(type) {
+					case *ssa.UnOp:
+						if r.Op != token.MUL {
+							return false
+						}
+					case *ssa.DebugRef:
+					default:
+						return false
+					}
+				}
+				return true
+			}
 			f := fieldOfAddr(x.X)
 			if f == nil {
 				return false
